@@ -661,6 +661,12 @@ func (s *seqRT) forCaseW(fc forCase, roles *sigRoles, havoc map[string][]AV) (wr
 	case "Loop":
 		args = []AV{body}
 	}
+	// the nested-loop rerun multiplies every body answer by what the inner loop may leave behind: two body calls
+	// and one resumption are enough to expose a stale flag, and keep the table small
+	maxBodyCalls, maxResumes := maxBodyCalls, maxResumes
+	if len(havoc) > 0 {
+		maxBodyCalls, maxResumes = 2, 1
+	}
 	in := s.interp()
 	in.MaxRecur = maxBodyCalls + 2
 	in.MaxVisits = maxBodyCalls + 2
